@@ -331,6 +331,25 @@ func (e *Engine) callEffect(c *ssa.CallCommon, res *effSet) {
 			name = v.Origin().String()
 		}
 		if libModels[name] != nil {
+			if strings.HasPrefix(name, "sort.") && len(c.Args) > 0 {
+				// writes the element storage of the slice it sorts
+				t := c.Args[0].Type()
+				if mi, ok := c.Args[0].(*ssa.MakeInterface); ok {
+					t = mi.X.Type()
+				}
+				if sl, ok := types.Unalias(t).Underlying().(*types.Slice); ok {
+					ks := []string{"E:" + so.Sort(sl.Elem())}
+					if structElems(sl.Elem()) {
+						ks = flatFieldKeys(sl.Elem())
+					}
+					for _, k := range ks {
+						res.keys[k] = true
+					}
+				} else {
+					res.setAll()
+				}
+				return
+			}
 			for _, k := range libWrites[name] {
 				res.keys[k] = true
 			}
